@@ -30,7 +30,7 @@ TEXT = {
          'exploration of the corruption space; termination enforced by a stream-event cap and a CPU cap', '6 (C08)'),
  'C09': ('deterministic simulation with fault injection on the caller side: arbitrary call sequences with rejected calls (38 bad-argument variants) and injected write errors; hierarchy model, zero-write atomicity on the traced handle, twin run of accepted calls only; exhaustive sweep of short call sequences',
          'exploration + exhaustive sub-space (all call sequences up to a bounded length)', '6 (C09)'),
- 'C10': ('seeded simulation of a byzantine producer emitting section ids in arbitrary order; successor relation typed in from the spec as oracle; exhaustive sweep of every candidate id after every legal prefix up to a bounded length',
+ 'C10': ('seeded simulation of a byzantine producer emitting section ids in arbitrary order (with header variations, blank lines, very long headers), preceded by noise actors that share the process-global tables (a writer whose calls are partly rejected, a DOM user); successor relation typed in from the spec as oracle; process-global-state guard; exhaustive sweep of every candidate id after every legal prefix up to a bounded length',
          'exploration + exhaustive sub-space; verdict is a function of the id sequence (fit: weak-moderate)', '6 (C10)'),
  'C11': ('seeded storage damage confined to the option string of one header; reference header grammar as oracle; exhaustive sweep of all option strings up to a bounded length over a 16-symbol alphabet',
          'exploration + exhaustive sub-space; verdict is a function of one line (fit: weak, stated in DESIGN.md)', '6 (C11)'),
@@ -42,7 +42,7 @@ TEXT = {
          'exploration (configuration swarm)', '5 (C15)'),
  'C17': ('deterministic simulation with re-chunking: (header padding 0..2B) x (read-ahead block size 1..2B, > file) x (stream kind) per generated file; metamorphic oracle + reference parser; full grid in the thorough tier',
          'fault_enumeration: thorough enumerates the complete 193 x 194 grid per file; quick samples it', '6 (C17)'),
- 'C18': ('deterministic simulation: 2-4 DOM actors x 1-2 live trees interleaved step by step by a seeded schedule; deep-snapshot isolation / observer-purity invariants after EVERY step, class-level defaults and a fresh DiffX() included',
+ 'C18': ('deterministic simulation: 2-4 DOM actors x 1-2 live trees interleaved step by step by a seeded schedule; deep-snapshot isolation (across trees and within a tree) / observer-purity invariants after EVERY step, class-level defaults, shared tables and a fresh DiffX() included; reused DiffXDOMReader / DiffXDOMWriter objects compared with fresh ones',
          'exploration of interleavings of API-call-sized steps', '7 (C18)'),
  'C19': ('deterministic simulation with rejected assignments as faults: typed attribute table (from the docs) x right/wrong values, unknown constructor attributes, whole-tree atomicity snapshots; equality probes against snapshot equality with twin trees and single-field perturbations',
          'exploration', '7 (C19)'),
@@ -87,7 +87,7 @@ def main():
             'kind_free_text': 'hand-written deterministic simulator: own PRNG (splitmix64), simulated storage and stream handles with a fault plan, seeded scheduler over cooperative actors (one API call / one reader next() per step), independent reference model of the DiffX spec, ddmin shrinker, scenario JSON = replay file; 16 forked workers',
         }],
         'checks': checks,
-        'notes': 'VERIF_SEED = master seed (default 1); VERIF_BUDGET_S / VERIF_RUNS override the tier budget; exit 0 ok / 1 VIOLATION / 2 HARNESS-ERROR. known_findings.json lists 2 open findings (C07, one root cause) and the repairs committed to /repo with their regression scenarios.',
+        'notes': 'VERIF_SEED = master seed (default 1); VERIF_BUDGET_S / VERIF_RUNS override the tier budget; exit 0 ok / 1 VIOLATION / 2 HARNESS-ERROR. known_findings.json lists the open findings (C07 short read, two shapes of one root cause; C19 equality blurs JSON number typing) and the 19 repairs committed to /repo with their regression scenarios (regress/), which every run of the property's check re-executes. seeded/ holds 136+ independently written breaking changes, all caught (DESIGN.md 12.5).',
         'not_applicable': [
             {'property_id': 'C14', 'reason': 'get_unified_diff_hunks is a pure function of an in-memory list of lines: no stream, carried state, second party, schedule or fault for a simulator to control (its totals are exercised incidentally by C13; no claim)'},
             {'property_id': 'C16', 'reason': 'split_lines is a pure function of two byte strings; an algebraic identity with no schedule, clock, fault or interleaving in it (small-scope enumeration or proof would be the fitting technique)'},
